@@ -14,7 +14,8 @@ from autobean_refactor import token_store as ts
 import docs, intro, storehist
 from common import enc_text
 
-STR = ['', 'x', 'a b', 'q"uote', 'back\\slash', 'two\nlines', 'é', 'l1\nl2\nl3', 'a\nbb\nccc\ndddd', 'tail\n', '\n\nhead', 'p\nq']
+STR = ['', 'x', 'a b', 'q"uote', 'back\\slash', 'two\nlines', 'é', 'l1\nl2\nl3', 'a\nbb\nccc\ndddd', 'tail\n', '\n\nhead', 'p\nq',
+       'ab\ncd', 'abc\nd', 'a\nbcd', 'abcd\n']      # (same length, same number of breaks, the break somewhere else)
 
 
 RELEX = {'EscapedString', 'BlockComment', 'InlineComment', 'Date', 'Number', 'Account', 'Currency', 'Tag', 'Link', 'MetaKey', 'Bool',
@@ -58,7 +59,7 @@ def domain_assignments(rng, t):
         out += [('value', rng.choice(STR))]
         out += [('raw_text', models.EscapedString.from_value(rng.choice(STR)).raw_text)]
     elif n == 'BlockComment':
-        out += [('value', rng.choice(['c', 'a\nb', '', 'x\n\ny', 'l1\nl2\nl3', 'p\r\n\r\nq', 'x\r\r\n\r\r\ny', 'u\r\r\nv'])), ('indent', rng.choice(['', '  ', '\t', '    ']))]
+        out += [('value', rng.choice(['c', 'a\nb', '', 'x\n\ny', 'l1\nl2\nl3', 'p\r\n\r\nq', 'x\r\r\n\r\r\ny', 'u\r\r\nv', 'xy\nz', 'x\nyz'])), ('indent', rng.choice(['', '  ', '\t', '    ']))]
         out += [('raw_text', models.BlockComment.from_value(rng.choice(['z', 'p\nq']), indent=rng.choice(['', '  '])).raw_text)]
     elif n == 'InlineComment':
         out += [('value', rng.choice(['', 'n', 'a;b', 'x  y']))]
